@@ -139,6 +139,24 @@ func ruleC01(w *World) {
 	w.ruleIdentityFlag("C01.R4", a)
 	w.floor("C01.R13", 1)
 	w.ruleSigContent("C01.R13", a.verify, 1)
+	// R15: hashing a message only reads it: no ComputeHash / Write of the hash package writes memory reachable from its
+	// byte-slice argument (an append onto the message writes into the caller's array when it has spare capacity — the
+	// bytes that follow the message in a framed packet `msg ‖ sig` are the signature about to be verified)
+	w.floor("C01.R15", 4)
+	{
+		ea := w.effects()
+		for _, fn := range w.srcFuncs(hashPath) {
+			if isTestFile(w, fn.Pos()) || fn.Signature.Recv() == nil || (fn.Name() != "ComputeHash" && fn.Name() != "Write") {
+				continue
+			}
+			bad, at := w.argumentWrite(ea, fn)
+			pos := fn.Pos()
+			if bad != "" {
+				pos = at
+			}
+			w.check(bad == "", "C01.R15", fnKey(fn)+"/message-read-only", pos, "the message argument is only read", fn.Name()+": "+bad+" — hashing changes the caller's memory next to the message (the signature of a framed packet, the next record of a batch)")
+		}
+	}
 	// R5: the domain tag and ciphersuite are folded into the KMAC key and reach the hash unmodified
 	w.floor("C01.R5", 4)
 	w.ruleKmacInitBlock("C01.R5")
